@@ -198,7 +198,8 @@ pub fn run(name: &str, args: &Args) -> Option<Report> {
         "conform" => conform::run(&mut rep, args.seed),
         "c11real" => c11real::run(args.seed, args.start, args.iters, &mut rep),
         "c04real" => c04real::run(args.seed, args.start, args.iters, &mut rep),
-        "realmix" => realmix::run(args.seed, args.start, args.iters, &mut rep),
+        "realmix" => realmix::run(args.seed, args.start, args.iters, &mut rep, false),
+        "realmixsq" => realmix::run(args.seed, args.start, args.iters, &mut rep, true),
         "c15" => c15::run(args.seed, args.start, args.iters, &mut rep),
         "c18" => c18::run(args.seed, args.start, args.iters, &mut rep),
         "c12" => c12::run(args.seed, args.start, args.iters, &mut rep, false),
